@@ -89,7 +89,7 @@ impl Scenario for C12 {
     fn meta(&self) -> Meta {
         Meta {
             level: "fault_enumeration",
-            rule: "history = producer chain over genesis period 3..6 (rebroadcasts, pruning at depth 2/4/8, purge at 2x genesis period), optionally a side block that either stays a stored side branch or arrives first (so that the main chain later wins by a reorganisation through a block received while it was not the longest), delivered block by block to a real full node (consensus path: mempool queue -> add_blocks_from_mempool -> block file + wallet file writes, purge removes); the simulated disk journals every operation. Crash images = every journal prefix k x tear class of operation k in {absent, created-empty, cut inside the header, half, all-but-last-byte, complete} (process dies, page cache survives: completed writes are durable). Twelve consecutive run indices enumerate the images of one history in chunks of 24. For each image a brand-new node runs the real start-up (Wallet::load, on_init with delete_old_blocks as drawn). Oracle: start-up does not panic; the restarted tip is a block the node had been given before the crash point; its in-window spendable set equals the reference ledger at that tip and the conservation equation holds; after a clean shutdown (full journal) the tip equals the pre-shutdown tip; the node then adopts the next three blocks of the chain. The start-up's own storage operations are journalled as well: for every image one of them (seeded) is the point of a second crash with a seeded tear class, and a third start-up must again come up without panic on a known tip. After the recovery and the three further blocks a clean shutdown and another start-up must come up on exactly that extended tip. distinct_nontrivial = distinct (history, prefix, tear class) restarted.",
+            rule: "history = producer chain over genesis period 3..6 (rebroadcasts, pruning at depth 2/4/8, purge at 2x genesis period), optionally a side block that either stays a stored side branch or arrives first (so that the main chain later wins by a reorganisation through a block received while it was not the longest), delivered block by block to a real full node (consensus path: mempool queue -> add_blocks_from_mempool -> block file + wallet file writes, purge removes); the simulated disk journals every operation. Crash images = every journal prefix k x tear class of operation k in {absent, created-empty, cut inside the header, half, all-but-last-byte, complete} (process dies, page cache survives: completed writes are durable). Twelve consecutive run indices enumerate the images of one history in chunks of 24. For each image a brand-new node runs the real start-up (Wallet::load, on_init with delete_old_blocks as drawn). Oracle: start-up does not panic; the restarted tip is a block the node had been given before the crash point; its in-window spendable set equals the reference ledger at that tip and the conservation equation holds; after a clean shutdown (full journal) the tip equals the pre-shutdown tip; the node then adopts the next three blocks of the chain. The start-up's own storage operations are journalled as well: for every image one of them (seeded) is the point of a second crash with a seeded tear class, and a third start-up must again come up without panic on a known tip. For the clean image of a history with a side block: after the restart the stored side branch grows by two blocks and overtakes the main chain (a reorganisation onto a block that was not on the longest chain when the node started), then a clean shutdown and start-up must come back on the side branch's tip. After the recovery and the three further blocks a clean shutdown and another start-up must come up on exactly that extended tip. distinct_nontrivial = distinct (history, prefix, tear class) restarted.",
             real: &["ConsensusThread::on_init", "Storage::load_block_name_list/load_blocks_from_disk/write_block_to_disk/delete_block_from_disk", "Wallet::load/save", "Blockchain::add_blocks_from_mempool/add_block/delete_blocks/prune", "Block::deserialize_from_net/generate"],
             stubs: &["SimDisk journal + torn-write images (write_value = truncate+write, no fsync/rename, as RustIOHandler)", "SimConfig", "no network"],
             assumptions: &["crash model = process death (no lost un-synced writes); the power-loss model is not demanded by the property", "write errors are not injected (write_block_to_disk panics by design)"],
@@ -152,7 +152,9 @@ impl Scenario for C12 {
         let mut side: Vec<BlockRec> = vec![];
         if plan.fork && plan.n_blocks >= 4 {
             if let Ok(Ok(mut f)) = crate::util::guarded(|| c.fork_at(plan.n_blocks - 2)) {
-                for k in 0..1 {
+                // (the first one is part of the history; the other two are kept for the stage in which the side
+                // branch overtakes the main chain after a restart)
+                for k in 0..3 {
                     let tag = f.tag();
                     let ts = f.tip_rec().ts + tag;
                     let tx = make_tx(&f.keys[2].clone(), &[], &[(f.keys[2].pk, 0)], ts, &tag.to_le_bytes());
@@ -164,6 +166,8 @@ impl Scenario for C12 {
                 }
             }
         }
+        let side_more: Vec<BlockRec> = if side.len() == 3 { side.split_off(1) } else { vec![] };
+        side.truncate(1);
         // deliver to the node under test with the journal on
         let mut cfg = c.cfg.clone();
         cfg.consensus.prune_after_blocks = plan.prune_after;
@@ -293,6 +297,51 @@ impl Scenario for C12 {
             if clean && tip.1 != final_tip.1 {
                 r.violate("C12|clean-restart|tip-differs", format!("after a clean shutdown the node restarts at id {} instead of {}", tip.0, final_tip.0));
                 continue;
+            }
+            // after a clean restart the stored side branch grows past the main chain (a reorganisation onto
+            // blocks that were not on the longest chain when the node started), then another clean restart:
+            // the node must come back on the side branch's tip
+            if clean && !side.is_empty() && side_more.len() == 2 {
+                let mut d5 = DiskState::default();
+                d5.files = image1_files.clone();
+                d5.mseq = image1_mseq.0.clone();
+                d5.seq = image1_mseq.1;
+                let disk5 = Arc::new(Mutex::new(d5));
+                let mut sim5 = Sim::new(1, start + 1500);
+                let node5 = FullNode::new(0, &key, &cfg, disk5.clone(), sim5.clock.clone(), &opts);
+                sim5.nodes.push(node5);
+                sim5.init_node(0, false);
+                let had_side = block_on(sim5.nodes[0].blockchain_lock.read()).blocks.contains_key(&side[0].hash);
+                if sim5.panics.is_empty() && had_side && sim5.nodes[0].tip().1 == final_tip.1 {
+                    let more: Vec<Vec<u8>> = side_more.iter().map(|x| x.bytes.clone()).collect();
+                    let _ = sim5.preload(0, &more);
+                    let side_tip = side_more[1].hash;
+                    if let Some((_, what, p)) = sim5.panics.first() {
+                        r.violate(format!("C12|panic|side-branch-after-restart|{}|{}", what, p.site()), format!("after a clean restart the side branch grew: {} ({}:{})", p.msg.chars().take(140).collect::<String>(), p.file, p.line));
+                        continue;
+                    }
+                    if sim5.nodes[0].tip().1 == side_tip {
+                        r.fault("side_branch_overtakes_after_restart", 1);
+                        let mut sim6 = Sim::new(1, start + 2500);
+                        let node6 = FullNode::new(0, &key, &cfg, disk5.clone(), sim6.clock.clone(), &opts);
+                        sim6.nodes.push(node6);
+                        sim6.init_node(0, false);
+                        if let Some((_, what, p)) = sim6.panics.first() {
+                            r.violate(format!("C12|panic|restart-after-reorganisation|{}|{}", what, p.site()), format!("clean restart after the side branch had overtaken: {} ({}:{})", p.msg.chars().take(140).collect::<String>(), p.file, p.line));
+                            continue;
+                        }
+                        if sim6.nodes[0].tip().1 != side_tip {
+                            r.violate(
+                                if plan.delete_old_blocks { "C12|restart-after-reorganisation|tip-differs" } else { "C12|restart-after-reorganisation|tip-differs|stale-files-kept" },
+                                format!("clean restart, then the stored side branch overtook the main chain (tip id {}), then another clean restart: the node comes back at id {}", side_more[1].id, sim6.nodes[0].tip().0),
+                            );
+                            continue;
+                        }
+                        r.probe("restart_after_reorganisation_ok");
+                    } else {
+                        r.probe("side_branch_not_adopted");
+                    }
+                }
             }
             // second crash: the process dies again in the middle of the start-up's own storage operations
             // (stale-file removal, wallet write, ...), then starts once more
